@@ -85,6 +85,15 @@ variable {β : Type} [Add β] [Div β] [OfNat β 0] [NatCast β]
 def timeAvg (W : Nat) (x : Nat → Nat → β) (n i : Nat) : β :=
   (sumRange W fun k => x (n + k) i) / (W : β)
 
+/-- `time_nsnapshot = int(time_period / ((step[1]-step[0]) * dt))` (utils.coarse_graining.time_average);
+`floor` stands for Python's `int()` on a positive float -/
+def window {α : Type} [Mul α] [Div α] (floor : α → Int) (period dt dstep : α) : Nat :=
+  (floor (period / (dstep * dt))).toNat
+
+/-- `maxbin = int(boxlength.min() / 2.0 / rdelta)` (conditional_gr); `two` is 2.0 -/
+def maxbinOf {α : Type} [Div α] (floor : α → Int) (two lmin rdelta : α) : Nat :=
+  (floor (lmin / two / rdelta)).toNat
+
 /-- number of averaged frames: `nsnapshots - W` -/
 def nAvg (T W : Nat) : Nat := T - W
 
